@@ -1,5 +1,5 @@
 // auto-generated: "lalrpop 0.23.1"
-// sha3: 7472a3ce22095ffcb7a92e4e10eee67fab6968fa891216fd7a7fb10db60ab935
+// sha3: 677c27c8cee4642937d28b452d0ad3f1c673a876770d3e3dda4aede235a5a469
 #[allow(unused_extern_crates)]
 extern crate lalrpop_util as __lalrpop_util;
 #[allow(unused_imports)]
@@ -665,7 +665,7 @@ fn __action3<
     (_, __0, _): (usize, &'input str, usize),
 ) -> String
 {
-    b'}' as char.to_string()
+    (b'}' as char).to_string()
 }
 
 #[allow(unused_variables)]
